@@ -46,6 +46,19 @@ def containers(v, named=False):
     ]
 
 
+def flow_children():
+    """containers whose flow positions hold quantity-carrying aggregators (their names and contents must survive
+    wherever the container itself is nested)"""
+    return [
+        D.Bin(2, 0, 4, "y", D.Count(), under=D.Sum("y"), over=D.Average("x"), nan=D.Sum("x")),
+        D.SparselyBin(2, "y", D.Count(), nan=D.Sum("x")),
+        D.SparselyBin(1, "y", D.Sum("x"), nan=D.Minimize("x")),
+        D.CentrallyBin([0, 2, 4], "y", D.Count(), nan=D.Average("x")),
+        D.IrregularlyBin([1, 3], "y", D.Count(), nan=D.Sum("x")),
+        D.Stack([1, 3], "y", D.Count(), nan=D.Maximize("x")),
+    ]
+
+
 def T1():
     return leaves() + [D.Count("sq")] + containers(D.Count())
 
@@ -121,18 +134,20 @@ def random_tree(rng, depth):
     sub = lambda: random_tree(rng, depth - 1)  # noqa: E731
     q = rng.choice("xy")
     k = rng.randrange(13)
+    # flow positions hold something other than a Count now and then
+    fl = lambda: (rng.choice(LEAF_MAKERS)(rng) if rng.random() < 0.3 else D.Count())  # noqa: E731
     if k == 0:
         return D.Bin(*rng.choice([(2, 0, 4), (4, 0, 4), (3, -1, 2)]), q, sub())
     if k == 1:
         return D.Bin(2, 0, 4, q, sub(), under=rng.choice(LEAF_MAKERS)(rng), nan=rng.choice(LEAF_MAKERS)(rng))
     if k == 2:
-        return D.SparselyBin(rng.choice([1, 2, F(1, 2)]), q, sub(), origin=rng.choice([0, 1]))
+        return D.SparselyBin(rng.choice([1, 2, F(1, 2)]), q, sub(), origin=rng.choice([0, 1]), nan=fl())
     if k == 3:
-        return D.CentrallyBin(rng.choice([[0, 2, 4], [1, 3], [-1, 1, 2, 5]]), q, sub())
+        return D.CentrallyBin(rng.choice([[0, 2, 4], [1, 3], [-1, 1, 2, 5]]), q, sub(), nan=fl())
     if k == 4:
-        return D.IrregularlyBin(rng.choice([[1, 3], [0], [0, 2, 4]]), q, sub())
+        return D.IrregularlyBin(rng.choice([[1, 3], [0], [0, 2, 4]]), q, sub(), nan=fl())
     if k == 5:
-        return D.Stack(rng.choice([[1, 3], [0], [0, 2, 4]]), q, sub())
+        return D.Stack(rng.choice([[1, 3], [0], [0, 2, 4]]), q, sub(), nan=fl())
     if k == 6:
         return D.Categorize("c", sub())
     if k == 7:
